@@ -212,6 +212,7 @@ func exec(e *lp.Exec) {
 // lineEnds checks the line terminators of a message the parser accepted as complete: the header section ends with
 // CR LF CR LF, no header line contains a bare CR or LF, and a message without a Content-Length body ends in CR LF CR LF.
 var blankLine = regexp.MustCompile("\r\n *\r\n")
+var chunkLine = regexp.MustCompile("^[0-9a-fA-F]+[ \t]*(;.*)?$")
 var chunkedEnd = regexp.MustCompile("\r\n[^\r]*\r\n$")
 
 func lineEnds(msg []byte, seen hx.Seen) string {
@@ -223,17 +224,54 @@ func lineEnds(msg []byte, seen hx.Seen) string {
 	}
 	he, hl := loc[0], loc[1]-loc[0]
 	lines := strings.Split(ms[:he], "\r\n")
-	for _, l := range lines[1:] {
+	for _, l := range lines {
 		if strings.ContainsAny(l, "\r\n") {
-			return "bare CR or LF inside a header line"
+			return "bare CR or LF inside a start line or header line"
 		}
 	}
 	chunked := len(seen.Header["Transfer-Encoding"]) > 0
 	switch {
 	case chunked:
-		// the final CR LF follows a CR LF; nbhttp skips non-token bytes where a trailer line may start
-		if !chunkedEnd.MatchString(ms) {
+		// walk the chunked body: size lines and trailer lines end in CR LF and contain no bare CR or LF; the
+		// chunk-size line is HEXDIG+ [BWS] [";" extension]
+		rest := ms[he+hl:]
+		for {
+			i := strings.Index(rest, "\r\n")
+			if i < 0 {
+				return "chunk-size line without CR LF"
+			}
+			line := rest[:i]
+			if strings.ContainsAny(line, "\r\n") {
+				return "bare CR or LF inside a chunk-size line"
+			}
+			if !chunkLine.MatchString(line) {
+				return fmt.Sprintf("chunk-size line %q is not HEXDIG+ [BWS] [\";\" extension]", trunc(line, 40))
+			}
+			j := 0
+			for j < len(line) && strings.IndexByte("0123456789abcdefABCDEF", line[j]) >= 0 {
+				j++
+			}
+			n, err := strconv.ParseInt(line[:j], 16, 63)
+			if err != nil {
+				return "chunk size does not parse"
+			}
+			rest = rest[i+2:]
+			if n == 0 {
+				break
+			}
+			if int64(len(rest)) < n+2 || rest[n:n+2] != "\r\n" {
+				return "chunk data not followed by CR LF"
+			}
+			rest = rest[n+2:]
+		}
+		// trailer section
+		if !chunkedEnd.MatchString("\r\n" + rest) {
 			return "chunked message does not end with CR LF CR LF"
+		}
+		for _, l := range strings.Split(strings.TrimSuffix(rest, "\r\n"), "\r\n") {
+			if strings.ContainsAny(l, "\r\n") && strings.Trim(l, " \t\n") != "" {
+				return "bare CR or LF inside a trailer line"
+			}
 		}
 	case seen.CL <= 0:
 		if len(ms) != he+hl {
